@@ -555,8 +555,8 @@ def _exc_class(r, e):
     msg = str(e)
     if name == 'ScriptError' and msg.startswith('Malformed script, not enough data'):
         for pos, s in _all_scripts(r):
-            eff = _unhex(s) if _hexlike(s) else s
-            if _tokens(eff) is None:
+            # (a tree that still unhexlifies hex-looking script bytes parses the shortened script instead)
+            if _tokens(s) is None or (_hexlike(s) and _tokens(_unhex(s)) is None):
                 return 'refuses_%s_with_truncated_push' % pos
         for st in (r.wit or []):
             for it in st:
@@ -1066,7 +1066,12 @@ def _tx_parse_refused_class(r, e=None):
     return None if c.endswith('unexplained') else 'tx:' + c
 
 
-SUBS = {'tx': sub_tx, 'big': sub_big, 'block': sub_block}
+def sub_hist(case):
+    from vf import txhist
+    return txhist.sub_hist(case, txhist.check_ids_and_bytes)
+
+
+SUBS = {'tx': sub_tx, 'big': sub_big, 'block': sub_block, 'hist': sub_hist}
 
 
 # ------------------------------------------------------------------------------------- enumeration
@@ -1299,6 +1304,13 @@ def run(ctx):
         cases = _block_cases(ctx.seed, q)
         ctx.pmap('block', cases)
         ctx.note('blocks', len(cases))
+    if want('hist'):
+        # operation histories on one live Transaction object: after every operation that updates the object
+        # (sign_and_update, set_locktime_*, bumpfee) the reported id must be the hash of the stripped
+        # serialization, and in every reached state the object's own bytes must parse back to the same bytes/id
+        from vf import txhist
+        hcfgs = [({'kinds': k, 'seed': ctx.seed % 1000, 'events': txhist.EVENTS}, 3 if q else 4) for k in txhist.CONFIGS]
+        ctx.note('history_states', ctx.bfs_multi('hist', hcfgs, max_states=4000 if q else 60000))
     ctx.note('bounds', {'one_byte_values': '00..ff at output script, scriptSig, witness item',
                         'counts': [1, 2, 3, 252, 253] + ([] if q else [65535, 65536]),
                         'entry_points': list(ENTRIES)})
